@@ -30,67 +30,112 @@ struct Case<'a> {
     ks: &'a [i64],
 }
 
-fn run_one(log: &mut Log, tag: &str, c: &Case) {
-    let cfg = json!({
-        "impl": if c.long_impl { "long" } else { "simple" },
-        "w": c.w,
-        "p": bytes(c.p),
-        "ambig": c.tb.ambig_json(),
-        "wild": c.tb.wild_json(),
-        "texts": Value::Array(c.texts.iter().map(|t| bytes(t)).collect()),
-    });
-    if !log.begin(tag, cfg) {
-        return;
-    }
-    let mut mx: Option<Mx> = None;
-    log.call("new", json!({}), || {
-        mx = Some(build(c.long_impl, c.w, c.p, c.tb));
-        json!({})
-    });
-    let mx = match mx {
-        Some(m) => m,
-        None => return,
-    };
-    for (ti0, t) in c.texts.iter().enumerate() {
-        let ti = ti0 + 1;
-        for &k in c.ks {
-            if !c.long_impl && !(0..=255).contains(&k) {
-                continue;
-            }
-            log.call("find_all_end", json!({"ti": ti, "k": k}), || {
-                on_myers!(
-                    &mx,
-                    m,
-                    {
-                        let v: Vec<(usize, u8)> = m.find_all_end(t.iter(), k as u8).collect();
-                        json!({ "v": hits_json(&v) })
-                    },
-                    {
-                        let v: Vec<(usize, usize)> = m.find_all_end(t.iter(), k_usize(k)).collect();
-                        json!({"v": Value::Array(v.iter().map(|&(e, d)| json!([num(e), num(d)])).collect())})
-                    }
-                )
-            });
+/// TLC validates the events of one run sequentially, so the texts of one object are
+/// spread over several runs ("parts") of bounded edit-matrix size; the Rust object is the
+/// same in all parts (`new` is recorded in part 0 only).
+fn groups(m: usize, texts: &[Vec<u8>], limit: usize) -> Vec<Vec<usize>> {
+    let mut out: Vec<Vec<usize>> = vec![];
+    let mut cur: Vec<usize> = vec![];
+    let mut cells = 0usize;
+    for (i, t) in texts.iter().enumerate() {
+        let c = m * t.len();
+        if !cur.is_empty() && cells + c > limit {
+            out.push(std::mem::take(&mut cur));
+            cells = 0;
         }
-        if !t.is_empty() {
-            // the minimum over all end positions needs at least one end position
-            log.call("distance", json!({ "ti": ti }), || {
-                on_myers!(&mx, m, json!({"d": m.distance(t.iter()) as i64}), json!({"d": num(m.distance(t.iter()))}))
-            });
-            log.call("best_end", json!({ "ti": ti }), || {
-                on_myers!(
-                    &mx,
-                    m,
-                    {
-                        let (e, d) = m.find_best_end(t.iter());
-                        json!({"v": [num(e), d as i64]})
-                    },
-                    {
-                        let (e, d) = m.find_best_end(t.iter());
-                        json!({"v": [num(e), num(d)]})
+        cur.push(i);
+        cells += c;
+    }
+    if !cur.is_empty() {
+        out.push(cur);
+    }
+    out
+}
+
+fn run_one(log: &mut Log, tag: &str, c: &Case) {
+    let mut mx: Option<Mx> = None;
+    let mut built = false;
+    for (part, grp) in groups(c.p.len(), c.texts, 20_000).iter().enumerate() {
+        let cfg = json!({
+            "impl": if c.long_impl { "long" } else { "simple" },
+            "w": c.w,
+            "p": bytes(c.p),
+            "ambig": c.tb.ambig_json(),
+            "wild": c.tb.wild_json(),
+            "part": part,
+            "texts": Value::Array(grp.iter().map(|&i| bytes(&c.texts[i])).collect()),
+        });
+        let active = log.begin(tag, cfg);
+        if !built {
+            built = true;
+            if active {
+                log.call("new", json!({}), || {
+                    mx = Some(build(c.long_impl, c.w, c.p, c.tb));
+                    json!({})
+                });
+            } else {
+                // run skipped after a restart: the object is still needed for the later parts
+                mx = std::panic::catch_unwind(|| build(c.long_impl, c.w, c.p, c.tb)).ok();
+            }
+        }
+        let mx = match &mx {
+            Some(m) => m,
+            None => return,
+        };
+        if !active {
+            continue;
+        }
+        let mut nontrivial = false; // some threshold selected a proper, non-empty subset of the end positions
+        for (ti0, &gi) in grp.iter().enumerate() {
+            let t = &c.texts[gi];
+            let ti = ti0 + 1;
+            for &k in c.ks {
+                if !c.long_impl && !(0..=255).contains(&k) {
+                    continue;
+                }
+                let r = log.call("find_all_end", json!({"ti": ti, "k": k}), || {
+                    on_myers!(
+                        mx,
+                        m,
+                        {
+                            let v: Vec<(usize, u8)> = m.find_all_end(t.iter(), k as u8).collect();
+                            json!({ "v": hits_json(&v) })
+                        },
+                        {
+                            let v: Vec<(usize, usize)> = m.find_all_end(t.iter(), k_usize(k)).collect();
+                            json!({"v": Value::Array(v.iter().map(|&(e, d)| json!([num(e), num(d)])).collect())})
+                        }
+                    )
+                });
+                if let Some(v) = r.get("v").and_then(|v| v.as_array()) {
+                    if !v.is_empty() && v.len() < t.len() {
+                        nontrivial = true;
                     }
-                )
-            });
+                }
+            }
+            if !t.is_empty() {
+                // the minimum over all end positions needs at least one end position
+                log.call("distance", json!({ "ti": ti }), || {
+                    on_myers!(mx, m, json!({"d": m.distance(t.iter()) as i64}), json!({"d": num(m.distance(t.iter()))}))
+                });
+                log.call("best_end", json!({ "ti": ti }), || {
+                    on_myers!(
+                        mx,
+                        m,
+                        {
+                            let (e, d) = m.find_best_end(t.iter());
+                            json!({"v": [num(e), d as i64]})
+                        },
+                        {
+                            let (e, d) = m.find_best_end(t.iter());
+                            json!({"v": [num(e), num(d)]})
+                        }
+                    )
+                });
+            }
+        }
+        if nontrivial {
+            log.oblige("nontrivial");
         }
     }
 }
@@ -120,17 +165,22 @@ fn all_strings(alpha: &[u8], minlen: usize, maxlen: usize) -> Vec<Vec<u8>> {
 
 fn texts_for(rng: &mut Rng, p: &[u8], alpha: &[u8], talpha: &[u8], big: bool) -> Vec<Vec<u8>> {
     let m = p.len();
+    let lean = m >= 100; // every text of about |p| symbols costs |p|^2 matrix cells
     let mut texts: Vec<Vec<u8>> = vec![vec![]];
     if m > 1 {
         let cut = 1 + rng.below((m - 1) as u64) as usize;
-        texts.push(p[..cut].to_vec()); // shorter than the pattern
+        texts.push(p[..if lean { cut.min(40) } else { cut }].to_vec()); // shorter than the pattern
     }
-    texts.push(p.to_vec());
-    let e = 1 + rng.below(3) as usize;
+    if !lean {
+        texts.push(p.to_vec());
+    }
+    let e = if lean { rng.below(4) as usize } else { 1 + rng.below(3) as usize };
     texts.push(mutate(rng, p, e, alpha));
-    let n1 = (m + 20 + rng.below(60) as usize).min(300);
-    texts.push(planted(rng, p, n1, alpha, talpha, 3));
-    if big {
+    if !lean || big {
+        let n1 = (m + 20 + rng.below(60) as usize).min(300);
+        texts.push(planted(rng, p, n1, alpha, talpha, 3));
+    }
+    if big && !lean {
         let n2 = 200 + rng.below(101) as usize;
         texts.push(planted(rng, p, n2, alpha, talpha, m / 8 + 2));
     }
@@ -160,7 +210,7 @@ pub fn drive(log: &mut Log) {
     }
 
     // (b) word-size boundaries of the single-word version
-    let nvar = log.opts.n(4, 24);
+    let nvar = log.opts.n(3, 24);
     for &w in &[8usize, 16, 32, 64] {
         let lens = [1usize, 2, w / 2 + 1, w - 1, w, w + 1];
         for &m in &lens {
@@ -173,7 +223,7 @@ pub fn drive(log: &mut Log) {
                     continue; // one refusal per width is enough
                 }
                 let mut rng = Rng::new(seed, 11, case);
-                let kind = variant % 4;
+                let kind = (variant + case) % 4;
                 let (alpha, talpha): (Vec<u8>, Vec<u8>) = match kind {
                     0 => (b"ACGT".to_vec(), b"ACGT".to_vec()),
                     1 => (b"ACGTNRYM".to_vec(), b"ACGTACGTN".to_vec()),
@@ -182,7 +232,7 @@ pub fn drive(log: &mut Log) {
                 };
                 let tb = make_tables(&mut rng, kind, &alpha);
                 let p = pattern(&mut rng, m, &alpha, variant / 4 + kind);
-                let texts = texts_for(&mut rng, &p, &alpha, &talpha, variant % 2 == 0);
+                let texts = texts_for(&mut rng, &p, &alpha, &talpha, if log.opts.thorough() { variant % 2 == 0 } else { variant == 0 });
                 let mi = m as i64;
                 let mut ks: Vec<i64> = vec![0, 1, 2, mi - 1, mi, mi + 3, 255];
                 ks.retain(|&k| k >= 0);
@@ -224,7 +274,7 @@ pub fn drive(log: &mut Log) {
     for &m in &[63usize, 64, 65, 128, 129, 200] {
         plan.push((64, m));
     }
-    let nvar = log.opts.n(3, 20);
+    let nvar = log.opts.n(2, 20);
     for &(w, m) in &plan {
         for variant in 0..nvar {
             case += 1;
@@ -232,7 +282,7 @@ pub fn drive(log: &mut Log) {
                 continue;
             }
             let mut rng = Rng::new(seed, 12, case);
-            let kind = variant % 4;
+            let kind = (variant + case) % 4;
             let (alpha, talpha): (Vec<u8>, Vec<u8>) = match kind {
                 0 => (b"ACGT".to_vec(), b"ACGT".to_vec()),
                 1 => (b"ab".to_vec(), b"ab".to_vec()),
@@ -241,7 +291,7 @@ pub fn drive(log: &mut Log) {
             };
             let tb = make_tables(&mut rng, if kind == 1 { 0 } else { kind }, &alpha);
             let p = pattern(&mut rng, m, &alpha, variant / 4 + kind);
-            let texts = texts_for(&mut rng, &p, &alpha, &talpha, m < 100 || variant == 0);
+            let texts = texts_for(&mut rng, &p, &alpha, &talpha, variant % 2 == 0);
             let mi = m as i64;
             let wi = w as i64;
             let mut ks: Vec<i64> = vec![0, 1, 2, wi - 1, wi, wi + 1, mi - 1, mi, mi + 3, 255, 1000, -1];
